@@ -141,11 +141,11 @@ row(props=["C03", "C04", "C18", "C11"], func=CD + "(CodeCall).BuildFullMethodNam
 row(props=["C03", "C04", "C18", "C11"], func=CD + "(CodeFunction).BuildFullMethodName", params=["m", "node"], kind="returns", expr='node.Package + "." + node.NodeName + "." + m.Name', what="full name of a method")
 row(props=["C04"], func="pkg/application/rcall.BuildMethodCallMap", params=["structs", "project"], kind="emits", target="mapstore:makemap1", tag={}, total=1,
     each={"as": "clz,method,c"},
-    when='c.NodeName != "" && !(lookup(project, ite(c.FunctionName == "", c.Package + "." + c.NodeName, c.Package + "." + c.NodeName + "." + c.FunctionName)) < 1)',
+    when='method.Name != "" && c.NodeName != "" && !(lookup(project, ite(c.FunctionName == "", c.Package + "." + c.NodeName, c.Package + "." + c.NodeName + "." + c.FunctionName)) < 1)',
     fields={"key": 'ite(c.FunctionName == "", c.Package + "." + c.NodeName, c.Package + "." + c.NodeName + "." + c.FunctionName)'},
-    what="reverse map: one entry per call site whose callee is a declared method")
+    what="reverse map: one entry per call site of a declared method (the nameless entry that holds the calls of initialisers is no method) whose callee is a declared method")
 row(props=["C04"], func="pkg/application/rcall.BuildProjectMethodMap", params=["clzs"], kind="emits", target="mapstore:makemap1", tag={}, total=1,
-    each={"as": "clz,method"}, when="true", fields={"key": 'clz.Package + "." + clz.NodeName + "." + method.Name', "value": "1"}, what="every declared method is in the project map")
+    each={"as": "clz,method"}, when='method.Name != ""', fields={"key": 'clz.Package + "." + clz.NodeName + "." + method.Name', "value": "1"}, what="every declared method, and nothing else, is in the project map (the nameless entry that holds the calls of initialisers is no method)")
 row(props=["C03"], func="pkg/application/call.BuildMethodMap", params=["structs"], kind="emits", target="mapstore:makemap1", tag={}, total=1,
     each={"as": "clz,method"}, when="true", fields={"key": 'clz.Package + "." + clz.NodeName + "." + method.Name'}, what="caller → callees for every function of every class")
 row(props=["C03"], kind="final", **{"global": "pkg/application/call.maxLoopCount"}, value="6", what="expansion budget of the call graph")
@@ -448,10 +448,10 @@ row(props=["C12"], func=API + "buildBaseApiUrlString", params=["name", "ctx"], k
     fields={"value": 'ite(len(%s) < 2, %s, call("slice", %s, 1, len(%s) - 1))' % (PAIRTXT, PAIRTXT, PAIRTXT, PAIRTXT)},
     what="the base path of a controller is the value= of its class-level @RequestMapping")
 
-IFACE = "lookup(idmap, clz.Implements[0])"
-row(props=["C03"], func="pkg/domain/core_domain.BuildDIMap", params=["identifiers", "idmap"], kind="emits", target="mapstore:makemap1", tag={}, total=1, each={"as": "clz,ann"},
+IFACE = "lookup(idmap, impl)"
+row(props=["C03"], func="pkg/domain/core_domain.BuildDIMap", params=["identifiers", "idmap"], kind="emits", target="mapstore:makemap1", tag={}, total=1, each={"as": "clz,ann,impl"},
     when="*", fields={"key": '%s.Package + "." + %s.NodeName' % (IFACE, IFACE), "value": 'clz.Package + "." + clz.NodeName'},
-    what="the injection table maps an interface to the component that implements it (the registered implementation the call graph substitutes), not to itself")
+    what="the injection table maps every interface a component implements to that component (the registered implementation the call graph substitutes), not to itself")
 
 for nm, base in [("PomXmlFilter", "pom.xml"), ("BuildGradleFilter", "build.gradle")]:
     row(props=["C19"], func="var:pkg/adapter/cocafile." + nm, params=["path"], kind="returns", expr='base(path) == "%s"' % base,
